@@ -39,6 +39,7 @@ def run(chk, crate="rssl_hlsl", P="C01"):
     if crate == "rssl_hlsl":
         rule_intrinsic(chk, P)
     rule_swizzle(chk, crate, P)
+    rule_order(chk, crate, P)
     if P == "C01":
         rule_conv(chk, P)
 
@@ -218,6 +219,93 @@ def rule_shape(chk, crate, P):
                            "operand %s of the emitted %s is exprs%s, must be exprs[%d] (operands swapped or duplicated)" % (fl["f"], a["variant"], sorted(got), want),
                            where(g, a), sample={"node": a["variant"], "field": fl["f"], "exprs_index": sorted(got)})
     chk.floor(P + ".floor/%s/shape-instances" % crate, total, 28 if crate == "rssl_hlsl" else 20, "child-position instances", crate)
+
+
+# ------------------------------------------------------------------ order / selection
+
+REORDER = {"rev", "skip", "take", "step_by", "filter", "filter_map", "skip_while", "take_while", "chunks", "windows", "last", "nth",
+           "retain", "dedup", "swap", "reverse", "truncate", "pop", "remove", "split_first", "split_last", "split_at", "sort", "sort_by",
+           "sort_by_key", "sort_unstable", "swap_remove", "drain", "insert"}
+RANGES = {"RangeFrom", "RangeTo", "Range", "RangeInclusive", "RangeToInclusive"}
+# every operation in an exporter that drops, skips or reorders elements of a sequence, confirmed by reading; (function, op) -> (count, why)
+ORDER_TABLE = {
+    "rssl_hlsl": {
+        ("generate_expression", "rev"): (1, "Sequence is folded from the last element: (a, (b, c))"),
+        ("generate_expression", "split_last"): (1, "same fold: the last element starts the chain"),
+        ("generate_for_init", "split_first"): (1, "first declaration supplies the shared type, the rest are appended in order"),
+        ("generate_type_impl", "rev"): (1, "modifiers are prepended, so they are visited in reverse to keep their order"),
+        ("prepend_modifiers", "rev"): (1, "same: prepend in reverse keeps order"),
+        ("generate_function_inner", "Range"): (1, "index loop over template parameters 0..n"),
+        ("generate_intrinsic_function", "RangeFrom"): (1, "method form: exprs[0] is the object, exprs[1..] the arguments"),
+        ("generate_user_call", "RangeFrom"): (1, "method call: exprs[0] is the object, exprs[1..] the arguments"),
+        ("register_binding", "resize"): (1, "bind group vector grows to the group index"),
+        ("simplify_namespaces", "append"): (1, "adjacent namespaces are merged in order"),
+        ("generate_for_init", "append"): (1, "later declarators are appended in order"),
+    },
+    "rssl_msl": {
+        ("generate_for_init", "append"): (1, "later declarators are appended in order"),
+        ("generate_intrinsic_op", "insert"): (1, "mesh output helper receives the output object as an extra argument"),
+        ("generate_module", "append"): (1, "pipeline definitions follow the user definitions"),
+        ("generate_module", "insert"): (1, "helper namespace is placed first"),
+        ("generate_type_impl", "insert"): (1, "library types are qualified with the metal namespace"),
+        ("simplify_namespaces", "append"): (1, "adjacent namespaces are merged in order"),
+        ("generate_expression", "rev"): (1, "Sequence fold from the last element"),
+        ("generate_expression", "split_last"): (1, "same fold"),
+        ("generate_expression", "Range"): (1, "constructor slot loop"),
+        ("generate_for_init", "split_first"): (1, "first declaration supplies the shared type"),
+        ("generate_type_impl", "rev"): (2, "modifiers are prepended in reverse"),
+        ("prepend_modifiers", "rev"): (1, "prepend in reverse keeps order"),
+        ("find_function_for_intrinsic", "split_first"): (1, "object type is the first argument type"),
+        ("process_mesh_entry", "filter_map"): (2, "mesh output parameters are removed from the signature"),
+        ("process_mesh_entry", "retain"): (1, "mesh output locals are removed"),
+        ("analyse_globals", "Range"): (1, "index loop over globals"),
+        ("build_mesh_output_set_indices", "Range"): (1, "index loop"),
+        ("generate_function_inner", "Range"): (1, "index loop over template parameters"),
+        ("generate_invoke_helper_method", "RangeFrom"): (1, "exprs[0] is the object"),
+        ("generate_invoke_simple_method", "RangeFrom"): (1, "exprs[0] is the object"),
+        ("generate_user_call", "RangeFrom"): (1, "exprs[0] is the object"),
+        ("generate_pipeline", "sort_by"): (2, "argument buffer members are ordered by api index; stages are ordered by stage kind"),
+        ("analyse_globals", "sort"): (1, "required globals are sorted (hash iteration)"),
+        ("generate_helpers", "sort"): (1, "helpers are sorted (hash iteration)"),
+        ("generate_helpers", "sort_by"): (1, "helper objects are sorted (hash iteration)"),
+    },
+}
+
+
+def order_inventory(f, crate):
+    inv = {}
+    for b in f.crates[crate]["bodies"]:
+        if "thir" not in b:
+            continue
+        owner = short(b.get("parent") or b["path"])
+        for c in F.exprs(b["thir"], "Call"):
+            n = short(c.get("fn") or "")
+            fn = c.get("fn") or ""
+            if n in REORDER and any(x in fn for x in ("iter", "slice", "vec::Vec", "Vec::<")):
+                if n == "insert" and "Vec" not in fn:
+                    continue
+                inv[(owner, n)] = inv.get((owner, n), 0) + 1
+            if n in ("resize", "append") and "Vec" in fn:
+                inv[(owner, n)] = inv.get((owner, n), 0) + 1
+        for a in F.exprs(b["thir"], "Adt"):
+            if short(a["adt"]) in RANGES:
+                inv[(owner, short(a["adt"]))] = inv.get((owner, short(a["adt"])), 0) + 1
+    return inv
+
+
+def rule_order(chk, crate, P):
+    """Nothing is dropped or reordered: every skip / reverse / filter / slice operation in the exporter is a reviewed one."""
+    f = chk.facts
+    inv = order_inventory(f, crate)
+    table = ORDER_TABLE[crate]
+    for key in sorted(set(inv) | set(table)):
+        got = inv.get(key, 0)
+        want, why = table.get(key, (0, None))
+        ok = got == want
+        chk.ob(P + ".order/%s/%s.%s" % (crate.replace("rssl_", ""), key[0], key[1]), ok,
+               "%d x %s in %s: %s" % (got, key[1], key[0], why) if ok else
+               ("%s in %s now has %d `%s` operation(s) (reviewed: %d): elements of an emitted sequence can be dropped, skipped or reordered"
+                % (crate, key[0], got, key[1], want)), crate, sample={"fn": key[0], "op": key[1], "count": got})
 
 
 # ------------------------------------------------------------------ literals
